@@ -57,7 +57,7 @@ def compute(case):
     var = case.get("variant", {})
     pomdp = build_pomdp(case["pomdp"], explicit_lists=case.get("explicit_lists", False), labels=var.get("labels"),
                         int01=var.get("int01", False), dist_types=var.get("dist_types", False),
-                        share_objects=var.get("share_objects", False))
+                        share_objects=var.get("share_objects", False), declare=var.get("declare"))
     fp0 = fingerprint(pomdp)
     S, A, O = pomdp._gen_S, pomdp._gen_A, pomdp._gen_O          # id -> label
     order = var.get("order", "matrix-first")
@@ -173,6 +173,9 @@ def compute(case):
                     o.append([[fj(x) for x in nb.probs], fj(p)])
                 return o
             r["belief_next"] = guarded(bnext)
+            # the successor beliefs the belief MDP itself produced (float posteriors), asked whether they are absorbing
+            r["belief_next_absorbing"] = guarded(
+                lambda: [bool(bmdp.is_absorbing(nb)) for nb in bmdp.next_state_dist(btup, a).keys()])
             # reward(s, a, ns) is called the way MDP code calls it: with an actual successor belief (every one of them)
             def brew():
                 succ = list(bmdp.next_state_dist(btup, a).keys())
